@@ -591,6 +591,32 @@ Definition args_ok (s : state) (o : op) : bool :=
   | WbsRemoveAll w _ => okw s w
   end.
 
+(* every object named by the call is one a Python caller can hold: a task object, never the hidden root of a
+   WBS - except as the OWNER of a children list (wbs.roots = ..., wbs.roots.append(t), wbs // x, ...).
+   pub_args implies args_ok; the harness evaluates it on every generated call (Graph/Check.v, clause 98). *)
+Definition pubobj (s : state) (x : obj) : bool := okobj s x && negb (hidden (get (hp s) x)).
+Definition pubopt (s : state) (x : option obj) : bool := match x with Some y => pubobj s y | None => true end.
+Definition publist (s : state) (l : list (option obj)) : bool := forallb (pubopt s) l.
+
+Definition pub_args (s : state) (o : op) : bool :=
+  match o with
+  | NewTask _ _ _ _ | NewWbs => true
+  | NewTaskRel _ _ p ch su pr =>
+      pubopt s p && match ch with Some c => publist s c | None => true end && publist s su && publist s pr
+  | SetParent t p => pubobj s t && pubopt s p
+  | SetChildren t vs | OpFloordiv t vs => okobj s t && publist s vs
+  | SetLinks _ t vs | OpShift _ t vs => pubobj s t && publist s vs
+  | ChAppend o t | ChRemove o t | ChInsert o _ t => okobj s o && pubopt s t
+  | LnAppend _ o t | LnRemove _ o t => pubobj s o && pubopt s t
+  | ChMove o ts b a => okobj s o && publist s ts && pubopt s b && pubopt s a
+  | ChSort o _ _ | ChReorder o _ | ChRemoveAll o _ => okobj s o
+  | LnRemoveAll _ o _ | SetEst o _ | SetPrio o _ => pubobj s o
+  | LstShift _ ts vs => forallb (pubobj s) ts && publist s vs
+  | LstSetParent ts p => forallb (pubobj s) ts && pubopt s p
+  | WbsRemove w t => okw s w && pubopt s t
+  | WbsRemoveAll w _ => okw s w
+  end.
+
 Definition step' (s : state) (o : op) : state * outcome :=
   match o with
   | NewTask i pr nm e => new_task s i pr nm e
